@@ -35,4 +35,39 @@ def replAtList : List Tree → Nat → List Nat → Tree → List Tree
   | k :: ks, i + 1, p, u => k :: replAtList ks i p u
 end
 
+/-! ### the `else:` ↔ `elif` decision of a statement-slice replacement
+
+`SrcEdit.put_slice_stmt` (src/fst/slice_stmtlike.py), replacement branch: what happens to the block header when the
+statements `[start, stop)` of a block are replaced. -/
+
+/-- what the code looks at -/
+structure ElifCase where
+  hasPre : Bool         -- `fpre`: a statement of the block stays before the replaced range
+  hasPost : Bool        -- `fpost`: a statement of the block stays after it
+  isOrelse : Bool       -- the field is `orelse`
+  tgtIsIf : Bool        -- the statement owning the block is an `If`
+  optElif : Bool        -- effective `elif_` option
+  oldIsElif : Bool      -- `orelse[0].is_elif()` before the edit
+  putLen : Nat          -- number of statements put
+  putFirstIsIf : Bool   -- the first statement put is an `If`
+deriving Repr, DecidableEq
+
+inductive HeaderAction where
+  | keep        -- header untouched, new statements indented to the block
+  | toElif      -- `else:` removed, the `if` put becomes `elif` at header indentation
+  | toElse      -- the old `elif` becomes `else:` plus an indented body
+deriving Repr, DecidableEq
+
+def elifDecision (c : ElifCase) : HeaderAction :=
+  if !c.hasPre && !c.hasPost && c.isOrelse && c.tgtIsIf then
+    if c.optElif && c.putLen == 1 && c.putFirstIsIf then .toElif
+    else if c.oldIsElif then .toElse
+    else .keep
+  else .keep
+
+/-- Specification (Python grammar): an `elif` may stand for the `orelse` of an `If` exactly when that `orelse` consists of
+the one `If` statement — the replaced range must cover the whole block and a single `If` must be put. -/
+def elifAllowed (c : ElifCase) : Bool :=
+  !c.hasPre && !c.hasPost && c.isOrelse && c.tgtIsIf && c.putLen == 1 && c.putFirstIsIf
+
 end Pfst.PutBack
